@@ -650,6 +650,8 @@ func (o *oracles) c12Cause(y *rCtr, toldNow string) string {
 		return " after-rejected-reconfigure-whose-revert-failed"
 	case w.failedReqInc:
 		return " after-failed-request"
+	case w.rejectedReconf:
+		return " after-rejected-reconfigure"
 	case y.restarts > 0 && y.toldHist[toldNow]:
 		return " stale-persisted-after-restart"
 	}
